@@ -92,6 +92,9 @@ struct State {
     finished: usize,
     last_progress: Instant,
     held_victim: bool,
+    /// threads presumed blocked outside the lock model (running, but not at a scheduling point)
+    detached: Vec<bool>,
+    nondeterministic: bool,
 }
 
 pub struct SimHooks {
@@ -122,6 +125,9 @@ pub struct SimResult<R> {
     pub diverged: bool,
     pub lock_count: usize,
     pub entropy_draws: Vec<u64>,
+    /// the baton had to be taken away from a thread blocked outside the model: the run is valid but
+    /// not exactly replayable
+    pub nondeterministic: bool,
 }
 
 impl State {
@@ -161,6 +167,7 @@ impl State {
 
     fn enabled(&self) -> Vec<usize> {
         (0..self.n)
+            .filter(|&t| !self.detached[t])
             .filter(|&t| match self.status[t] {
                 TStatus::Ready => true,
                 TStatus::Waiting { lock, write } => self.grantable(t, lock, write),
@@ -328,6 +335,26 @@ impl Shared {
         }
         st.steps += 1;
         st.last_progress = Instant::now();
+        if st.detached[tid] {
+            // this thread had been presumed blocked outside the model and somebody else was given the
+            // baton; it has now reached a scheduling point: park it again without taking a decision
+            st.detached[tid] = false;
+            if st.current.is_none() && !st.abort {
+                if let Some(next) = st.choose(None) {
+                    st.current = Some(next);
+                    if next != tid {
+                        self.cvs[next].notify_one();
+                    }
+                }
+            }
+            st = self.wait_turn(st, tid);
+            let aborted = st.abort;
+            drop(st);
+            if aborted && is_enter && !std::thread::panicking() {
+                std::panic::resume_unwind(Box::new(AbortRun));
+            }
+            return;
+        }
         if st.steps > st.step_cap {
             let cap = st.step_cap;
             st.fail("no-progress", format!("more than {} scheduling points without completing (bounded-progress budget exceeded)", cap));
@@ -404,6 +431,13 @@ impl Shared {
             }
             l.readers.retain(|&t| t != tid);
         }
+        let was_detached = st.detached[tid];
+        st.detached[tid] = false;
+        if was_detached && st.current.is_some() && st.current != Some(tid) {
+            // somebody else holds the baton
+            self.main_cv.notify_all();
+            return;
+        }
         if !st.abort && st.finished < st.n {
             match st.choose(None) {
                 Some(next) => {
@@ -447,6 +481,9 @@ fn describe_blocked(st: &State) -> String {
     parts.join("; ")
 }
 
+/// After this long without a scheduling point the baton holder is presumed blocked outside the model.
+const DETACH_SECS: u64 = 3;
+
 pub struct SimConfig {
     pub policy: Policy,
     pub strategy: Strategy,
@@ -488,6 +525,8 @@ pub fn simulate<R: Send + 'static>(
             finished: 0,
             last_progress: Instant::now(),
             held_victim: false,
+            detached: vec![false; n],
+            nondeterministic: false,
         }),
         cvs: (0..n).map(|_| Condvar::new()).collect(),
         main_cv: Condvar::new(),
@@ -542,6 +581,25 @@ pub fn simulate<R: Send + 'static>(
             if st.finished == n {
                 break;
             }
+            if st.last_progress.elapsed() > Duration::from_secs(DETACH_SECS) && !st.abort {
+                // the baton holder has not reached a scheduling point for a while: it may be blocked on
+                // something the model does not know (an uninstrumented lock held by a parked thread).
+                // Hand the baton to another enabled thread instead of raising an alarm.
+                if let Some(stuck) = st.current {
+                    if !st.detached[stuck] {
+                        st.detached[stuck] = true;
+                        if let Some(next) = st.choose(None) {
+                            st.nondeterministic = true;
+                            st.current = Some(next);
+                            st.last_progress = Instant::now();
+                            shared.cvs[next].notify_one();
+                            continue;
+                        }
+                        // nobody else can run: keep waiting for the stuck thread
+                        st.detached[stuck] = false;
+                    }
+                }
+            }
             if st.last_progress.elapsed() > Duration::from_secs(cfg.stall_secs) {
                 let running = st.current;
                 st.fail(
@@ -580,6 +638,7 @@ pub fn simulate<R: Send + 'static>(
         diverged: st.diverged,
         lock_count: st.locks.len(),
         entropy_draws,
+        nondeterministic: st.nondeterministic,
     }
 }
 
